@@ -501,6 +501,7 @@ fn parent(id: &str, tier: Tier) -> i32 {
         for e in fo.infra {
             infra.push(e);
         }
+        super::sut::capture_release();
     }
     let _ = std::fs::remove_dir_all(&work);
     let _ = std::fs::remove_dir(vdir.join(".work"));
